@@ -228,7 +228,7 @@ def build(spec, wire_start=None):
         return qre.Pow(build(spec["pow"], wire_start), spec["p"])
     base = build(spec["ctrl"], wire_start)
     w = None
-    if spec.get("cw") is not None:
+    if spec.get("cw") is not None and wire_start is not None:
         w = list(range(spec["cw"], spec["cw"] + spec["n"]))
     return qre.Controlled(base, spec["n"], spec["z"], wires=w)
 
